@@ -1053,10 +1053,13 @@ End Sim.
 Lemma PTop_init (G X : Type) (gid : G) : PTop G X gid (py_init G X gid).
 Proof. constructor; try reflexivity. intros j o H. discriminate. Qed.
 
-(* ================= the tactic of the generated file: gen_* = py_* =================
-   conversion first (unchanged source, renamed locals, re-associated lets); otherwise both sides are unfolded to the primitives,
-   every condition is decided (so `a == b` / `b == a`, `not c` / swapped branches, nested / joined conditions agree), loop bodies
-   are compared pointwise, index arithmetic by lia *)
+(* ================= the tactic of the generated file: gen_f = py_f =================
+   conversion first (unchanged source, renamed locals, re-associated lets).  Otherwise: unfold the pair gen_f / py_f one level,
+   rewrite the calls of already tied procedures (rw), decide every condition (so `a == b` / `b == a`, `not c` with swapped
+   branches, nested / joined conditions agree), compare the bodies of loops and continuations pointwise, index arithmetic by lia *)
+Lemma obind_ext {A B} (o : option A) (f g : A -> option B) : (forall a, f a = g a) -> obind o f = obind o g.
+Proof. intros H. destruct o; cbn; [apply H|reflexivity]. Qed.
+
 Ltac nat_facts :=
   repeat match goal with
   | H : Nat.eqb _ _ = true |- _ => apply Nat.eqb_eq in H
@@ -1064,7 +1067,13 @@ Ltac nat_facts :=
   | H : Nat.leb _ _ = true |- _ => apply Nat.leb_le in H
   | H : Nat.leb _ _ = false |- _ => apply Nat.leb_gt in H
   end.
-Ltac tie_leaf := first [ reflexivity | (exfalso; nat_facts; first [lia | congruence]) | (nat_facts; subst; reflexivity) | (repeat f_equal; lia) ].
+Ltac nth_norm :=
+  repeat match goal with
+  | H : context [nth ?a ?l ?d], H' : context [nth ?b ?l ?d] |- _ =>
+      tryif constr_eq a b then fail else (replace a with b in * by lia)
+  end.
+Ltac tie_leaf := first [ reflexivity | (exfalso; nat_facts; first [lia | congruence]) | (exfalso; nat_facts; nth_norm; first [lia | congruence])
+                       | (nat_facts; subst; reflexivity) | (repeat f_equal; lia) ].
 Ltac split_cond c :=
   lazymatch c with
   | negb ?d => split_cond d
@@ -1072,25 +1081,43 @@ Ltac split_cond c :=
   | orb ?a ?b => first [split_cond a | split_cond b]
   | true => fail
   | false => fail
-  | context [if _ then _ else _] => fail
   | _ => let E := fresh "E" in destruct c eqn:E
   end.
+Ltac no_inner_if c := lazymatch c with context [if _ then _ else _] => fail | _ => idtac end.
+Ltac tie_split1 :=
+  repeat (first [ match goal with |- context [if ?c then _ else _] => no_inner_if c; split_cond c end
+                | match goal with |- context [match ?v with Some _ => _ | None => _ end] => is_var v; destruct v end ];
+          cbn [negb andb orb]).
 Ltac tie_split :=
-  repeat (match goal with |- context [if ?c then _ else _] => split_cond c end; cbn [negb andb orb]).
-Ltac tie_body := intros; cbv beta zeta; tie_split; tie_leaf.
-Ltac tie_loops :=
+  repeat (first [ match goal with |- context [if ?c then _ else _] => no_inner_if c; split_cond c end
+                | match goal with |- context [if ?c then _ else _] => split_cond c end
+                | match goal with |- context [match ?v with Some _ => _ | None => _ end] => is_var v; destruct v end ];
+          cbn [negb andb orb]).
+Ltac tie_pairs :=
+  repeat match goal with
+  | a : (_ * _)%type |- _ => destruct a
+  end.
+Ltac tie_go rw :=
+  cbv beta iota zeta; rw; tie_split1; rw;
   repeat match goal with
   | |- ?lhs = ?rhs =>
       match lhs with context [fold_left ?f ?l ?a] =>
         match rhs with context [fold_left ?g l a] =>
-          tryif constr_eq f g then fail else (rewrite (fold_left_ext f g l a); [|tie_body])
+          tryif constr_eq f g then fail else (rewrite (fold_left_ext f g l a); [|intros; tie_pairs; tie_go rw])
         end
       end
   | |- ?lhs = ?rhs =>
       match lhs with context [for_break ?l ?f ?a] =>
         match rhs with context [for_break l ?g a] =>
-          tryif constr_eq f g then fail else (rewrite (for_break_ext l f g a); [|tie_body])
+          tryif constr_eq f g then fail else (rewrite (for_break_ext l f g a); [|intros; tie_pairs; tie_go rw])
         end
       end
-  end.
-Ltac tie unf := intros; first [ reflexivity | (unf; cbv beta zeta; tie_split; tie_loops; tie_leaf) ].
+  | |- ?lhs = ?rhs =>
+      match lhs with context [obind ?o ?f] =>
+        match rhs with context [obind o ?g] =>
+          tryif constr_eq f g then fail else (rewrite (obind_ext o f g); [|intros; tie_pairs; tie_go rw])
+        end
+      end
+  end;
+  tie_split; tie_leaf.
+Ltac tie unf rw := intros; first [ reflexivity | (unf; tie_go rw) ].
